@@ -191,15 +191,46 @@ def correspond(model_ok, res):
                                                  "subclasses included): equal exactly when same class and content"
                                                  % (ka, kb), "wrapper": wi, "a": repr(a)[:200], "b": repr(b)[:200],
                                           "a==b": got, "expected": want}, None))
-    for _ in range(npairs):
-        a = g.tree(r.randrange(0, 4))
-        if r.random() < 0.8:
-            for _try in range(8):
-                b, kind = mutate(r, T, g, a)
-                if kind != "identical":
-                    break
+    # fixed pairs first: an IMPLICIT degree / force against explicit ones (equal and different), both
+    # inclusiveness flags, under a few wrappers; both directions are compared below
+    P_ = T.Phrase('"a b"')
+    numeral_pairs = [
+        (lambda: T.Boost(W("a"), None), lambda: T.Boost(W("a"), 2), "implicit-force-vs-2"),
+        (lambda: T.Boost(W("a"), None), lambda: T.Boost(W("a"), "0.5"), "implicit-force-vs-0.5"),
+        (lambda: T.Boost(W("a"), None), lambda: T.Boost(W("a"), 1), "implicit-force-vs-1"),
+        (lambda: T.Boost(W("a"), None), lambda: T.Boost(W("a"), "1.0"), "implicit-force-vs-1.0"),
+        (lambda: T.Boost(W("a"), 2), lambda: T.Boost(W("a"), "2.0"), "force-2-vs-2.0"),
+        (lambda: T.Boost(W("a"), 2), lambda: T.Boost(W("a"), 3), "force-2-vs-3"),
+        (lambda: T.Fuzzy(W("a")), lambda: T.Fuzzy(W("a"), 2), "implicit-degree-vs-2"),
+        (lambda: T.Fuzzy(W("a")), lambda: T.Fuzzy(W("a"), "0.5"), "implicit-degree-vs-0.5"),
+        (lambda: T.Fuzzy(W("a")), lambda: T.Fuzzy(W("a"), "0.50"), "implicit-degree-vs-0.50"),
+        (lambda: T.Fuzzy(W("a"), 1), lambda: T.Fuzzy(W("a"), "1.0"), "degree-1-vs-1.0"),
+        (lambda: T.Proximity(P_), lambda: T.Proximity(P_, 2), "implicit-proximity-vs-2"),
+        (lambda: T.Proximity(P_), lambda: T.Proximity(P_, 1), "implicit-proximity-vs-1"),
+        (lambda: T.Proximity(P_, 3), lambda: T.Proximity(P_, "3"), "proximity-3-vs-'3'"),
+        (lambda: T.From(W("1"), True), lambda: T.From(W("1"), False), "from-flag"),
+        (lambda: T.To(W("1"), True), lambda: T.To(W("1"), False), "to-flag"),
+        (lambda: T.From(W("1")), lambda: T.From(W("1"), True), "from-default-flag"),
+        (lambda: T.Range(W("1"), W("2"), True, False), lambda: T.Range(W("1"), W("2"), False, False), "range-low-flag"),
+        (lambda: T.Range(W("1"), W("2"), True, False), lambda: T.Range(W("1"), W("2"), True, True), "range-high-flag"),
+    ]
+    fixed_pairs = []
+    for mk_a, mk_b, kind in numeral_pairs:
+        for wrap in wrappers[:4]:
+            fixed_pairs.append((wrap(mk_a()), wrap(mk_b()), "fixed:" + kind))
+            fixed_pairs.append((wrap(mk_b()), wrap(mk_a()), "fixed:" + kind + ":swapped"))
+    for pi in range(len(fixed_pairs) + npairs):
+        if pi < len(fixed_pairs):
+            a, b, kind = fixed_pairs[pi]
         else:
-            b, kind = g.tree(r.randrange(0, 3)), "unrelated"
+            a = g.tree(r.randrange(0, 4))
+            if r.random() < 0.8:
+                for _try in range(8):
+                    b, kind = mutate(r, T, g, a)
+                    if kind != "identical":
+                        break
+            else:
+                b, kind = g.tree(r.randrange(0, 3)), "unrelated"
         kinds[kind] = kinds.get(kind, 0) + 1
         try:
             ga, gb = lib.g_item(a), lib.g_item(b)
